@@ -15,6 +15,8 @@ for tc in ET.parse(out).getroot().iter('testcase'):
     if not any(ch.tag in ('failure', 'error', 'skipped') for ch in tc):
         passed.add('%s::%s' % (tc.get('classname'), tc.get('name')))
 os.remove(out)
+if os.path.exists(os.path.join(repo, 'ave.db')):     # written into the working directory by one of the tests
+    os.remove(os.path.join(repo, 'ave.db'))
 want = set(base['stable_pass'])
 missing = sorted(want - passed)
 print('passed=%d baseline=%d missing=%d' % (len(passed), len(want), len(missing)))
